@@ -190,6 +190,20 @@ def structural(run: Run):
               "snippet_metadata.file = fpath" in src, group="samples.index:provenance")
     run.table("samples.index:file-content-is-the-same-render-after-fix_whitespace", "content=formatter.fix_whitespace(sample), name=fname" in src, group="samples.index:provenance")
     run.table("samples.index:file-name-is-snake-case-of-the-id", "fpath = utils.to_snake_case(spec['id']) + '.py'" in src, group="samples.index:provenance")
+    # metadata of the client method: names, result type and parameters are taken from the same schema attributes the client templates render
+    f3, h3 = find_def(SG, "_fill_sample_metadata")
+    s3 = ast.unparse(f3)
+    run.functions.append({"qualname": "_fill_sample_metadata", "source": SG, "sha256_16": h3, "obligations": "AST patterns"})
+    g3 = "samples.metadata:provenance"
+    run.table("samples.metadata:method-name-is-the-client-method-name", "snippet_metadata.client_method.short_name = utils.to_snake_case(method.client_method_name)" in s3, group=g3)
+    run.table("samples.metadata:client-name-by-transport", "service.async_client_name if async_ else service.client_name" in s3, group=g3)
+    run.table("samples.metadata:result-type-from-client_output-and-streamed-iff-server-streaming",
+              "if not method.void:" in s3 and "method.client_output_async.ident.sphinx if async_ else method.client_output.ident.sphinx" in s3 and
+              "if method.server_streaming:\n            snippet_metadata.client_method.result_type = f'Iterable[{snippet_metadata.client_method.result_type}]'" in s3, group=g3)
+    run.table("samples.metadata:parameters-request-then-flattened-fields-then-retry-timeout-metadata",
+              "if not method.client_streaming:" in s3 and "for field in method.flattened_fields.values():" in s3 and
+              s3.index("name='request'") < s3.index("for field in method.flattened_fields.values():") < s3.index("name='retry'") < s3.index("name='timeout'") < s3.index("name='metadata'"),
+              group=g3)
     # docstring: the client template embeds snippet.full_snippet; the enclosing file then goes through fix_whitespace, whose nested-definition rule
     # collapses the two blank lines sample.py.j2 leaves before `def`
     from gapic.generator.formatter import fix_whitespace
@@ -217,11 +231,16 @@ def method_name_agreement(run: Run):
     import keyword
     m.globals["keyword.kwlist"] = pyv(tuple(keyword.kwlist))
     m.globals["keyword"] = pyv(("module", "keyword"))
-    m.add_contract(Contract("make_private", params={"name": "Str"}, result="Str", kind="assumed", ensures=["result == '_' + name"], note="utils.make_private: one leading underscore"))
+    mp = Contract("make_private", source=("gapic/utils/code.py", "make_private"), params={"object_name": "Str"}, result="Str",
+                  ensures=["result == (object_name if object_name.startswith('_') else '_' + object_name)"])
+    m.add_contract(mp)
+    run.verify(m, mp)
     from vf.model import FuncV
     m.globals["make_private"] = pyv(FuncV("contract", "make_private", recv=None))
+    m.add_spec("base_name", ["mm"], "mm.method_pb.name + ('_' if mm.method_pb.name.lower() in keyword.kwlist else '')")
     c = Contract("Method.client_method_name", source=(W, "Method.client_method_name"), params={"self": "Method"}, result="Str",
-                 ensures=["result == ('_' if self.is_internal else '') + self.method_pb.name + ('_' if self.method_pb.name.lower() in keyword.kwlist else '')"])
+                 ensures=["implies(not self.is_internal, result == base_name(self))",
+                          "implies(self.is_internal, result == (base_name(self) if base_name(self).startswith('_') else '_' + base_name(self)))"])
     m.add_contract(c)
     try:
         run.verify(m, c)
